@@ -1,5 +1,6 @@
 import Proofs.Lemmas.ReqSolo
 import Proofs.Lemmas.ReqSite
+import Proofs.Lemmas.ReqLimit
 import Generated.C11Superglobals
 /-!
 # C11 — concurrent HTTP requests do not interfere: a response depends on its request
@@ -36,6 +37,16 @@ as a parameter (`perEvaluation | inNode`); `C11_site_noninterference` states the
 under `perEvaluation`, `C11_node_slot_leaks` the leak under `inNode`, and the
 regenerated fact `nodeWrites` (every store of an evaluation-time method of package `node` into
 its own receiver) decides which one the analysed tree has (`C11_site_noninterference_generated`).
+
+Limits are the third half: the VM is one object for the whole process, so a counter it keeps
+(`VM.callDepth`, entered by `ClassMethod.Call`) is the sum over all in-flight requests.
+`Model.ReqLimit` has, per Go function that enters the counter, what its refusal is decided on as a
+parameter (`own | shared | never`): `C11_depth_counter_is_sum` is the bookkeeping `c = Σ d_i` for
+every interleaving and every guard table, `C11_depth_decision_own` / `C11_depth_noninterference`
+the isolation when every refusal is decided on the request's own frames, `C11_shared_depth_guard_leaks`
+the leak when one is decided on the sum, and the regenerated fact `depthGuards` (every place that
+enters a VM counter, its limit, what the refusal under it is nested in) decides which one the
+analysed tree has (`C11_depth_guards_generated`).
 
 Trusted, not proved: `net/http` hands every request its own `*http.Request`; the Go memory
 model (steps are atomic in the model; the real caches are plain pointers — the parallel-load
@@ -323,6 +334,103 @@ theorem C11_site_noninterference_generated :
 
 end Site
 
+section Limit
+open Model.ReqLimit Proofs.ReqLimit
+
+/-- **(i) Bookkeeping.** After *any* interleaving of the enter / leave operations of any number of
+requests — whatever the guards are decided on, refusals and their unwinding included — the
+VM's counter is the sum of the counted frames the requests hold: `c = Σ d_i`. -/
+theorem C11_depth_counter_is_sum (w : Model.ReqLimit.World) (sched : List Rid) :
+    (Model.ReqLimit.run w (Model.ReqLimit.init w) sched).cnt
+      = total w.guards (Model.ReqLimit.run w (Model.ReqLimit.init w) sched) w.n :=
+  inv_run w sched _ (inv_init w)
+
+/-- **(ii) The decision of an `own` guard is a function of the calling request alone**: in every
+reachable state, for every request and every frame it may enter next, the guard refuses iff the
+request's *own* frames (the entering one included) exceed the limit — the process-wide number,
+i.e. what all the other requests hold, does not enter. -/
+theorem C11_depth_decision_own (w : Model.ReqLimit.World) (sched : List Rid) (r : Rid) (hr : r < w.n)
+    (k : Callee) (gd : Guard) (hon : gd.on = .own) (hok : GuardOK w.guards gd) :
+    refuse gd ((Model.ReqLimit.run w (Model.ReqLimit.init w) sched).cnt + 1)
+        (ownDepth gd k ((Model.ReqLimit.run w (Model.ReqLimit.init w) sched).req r))
+      = decide (ownDepth gd k ((Model.ReqLimit.run w (Model.ReqLimit.init w) sched).req r) > gd.ownLimit) :=
+  refuse_own w.guards gd k _ _ hon hok
+    (depth_le_cnt w _ r hr (inv_run w sched _ (inv_init w)))
+
+/-- **Projection** for limits: when every guard decides on the request's own frames, a request is,
+after *any* schedule (any number of requests holding any number of frames, complete or not), in
+the state its own turns alone produce. -/
+theorem C11_depth_noninterference_prefix (w : Model.ReqLimit.World) (hg : GoodGuards w.guards) (r : Rid)
+    (sched : List Rid) :
+    (Model.ReqLimit.run w (Model.ReqLimit.init w) sched).req r
+      = (Model.ReqLimit.run w (Model.ReqLimit.init w) (List.replicate (sched.count r) r)).req r :=
+  Proofs.ReqLimit.sim_run w hg r sched _ _ (inv_init w) (inv_init w) rfl
+
+/-- **Isolation of limits**: under every schedule that lets it finish, the request answers what it
+answers alone (accepted, or refused with the same reported depth), which is the specification's
+function of its own program: refused iff its own frames exceed the limit.  No assumption on the
+other requests. -/
+theorem C11_depth_noninterference (w : Model.ReqLimit.World) (hg : GoodGuards w.guards) (r : Rid) (hr : r < w.n)
+    (sched : List Rid) (hdone : (w.prog r).length ≤ sched.count r) :
+    Model.ReqLimit.response (Model.ReqLimit.run w (Model.ReqLimit.init w) sched) r = Model.ReqLimit.soloResponse w r ∧
+    Model.ReqLimit.soloResponse w r = Spec.ReqLimit.respond w.guards (w.prog r) := by
+  constructor
+  · unfold Model.ReqLimit.response Model.ReqLimit.soloResponse Model.ReqLimit.solo Model.ReqLimit.response
+    rw [C11_depth_noninterference_prefix w hg r sched]
+    rw [Proofs.ReqLimit.run_saturate w r hr (sched.count r) (w.prog r).length (Model.ReqLimit.init w)
+      (by simpa [Model.ReqLimit.init] using hdone) (by simp [Model.ReqLimit.init])]
+  · unfold Model.ReqLimit.soloResponse Model.ReqLimit.solo Model.ReqLimit.response Spec.ReqLimit.respond
+    exact Proofs.ReqLimit.solo_spec w hg r hr (w.prog r) (Model.ReqLimit.init w) rfl (inv_init w)
+
+/-- one guarded kind of frame ("m", limit 2); request 0 descends two frames and parks, request 1 needs one -/
+def limitWorld (on : DecidesOn) : Model.ReqLimit.World where
+  n := 2
+  guards := fun k => if k = "m" then some { limit := 2, ownLimit := 2, on := on, ownCounts := ["m"] } else none
+  prog := fun r => if r = 0 then [.enter "m", .enter "m", .gate, .leave, .leave, .write]
+                   else [.enter "f", .enter "m", .leave, .leave, .write]
+
+/-- **(iii) Negation witness** (the seeded class of change, `if depth := vm.EnterCall(); depth > limit
+{ … return error }`): with the refusal decided on the process-wide number, request 1 — one counted
+frame deep — is refused with "depth 3" while request 0 is parked holding two frames; alone it is
+served; decided on its own frames it is served under the same schedule. -/
+theorem C11_shared_depth_guard_leaks :
+    Model.ReqLimit.response (Model.ReqLimit.run (limitWorld .shared) (Model.ReqLimit.init (limitWorld .shared)) [0, 0, 0, 1, 1, 1, 1, 1, 0, 0, 0]) 1 = .refused 3 ∧
+    Model.ReqLimit.soloResponse (limitWorld .shared) 1 = .ok ∧
+    Model.ReqLimit.response (Model.ReqLimit.run (limitWorld .own) (Model.ReqLimit.init (limitWorld .own)) [0, 0, 0, 1, 1, 1, 1, 1, 0, 0, 0]) 1 = .ok ∧
+    Model.ReqLimit.response (Model.ReqLimit.run (limitWorld .shared) (Model.ReqLimit.init (limitWorld .shared)) [0, 0, 0, 1, 1, 1, 1, 1, 0, 0, 0]) 0 = .ok := by
+  decide
+
+/-- the full statement fails for a guard decided on the sum -/
+theorem C11_depth_noninterference_counterexample :
+    ¬ (∀ (w : Model.ReqLimit.World) (r : Rid) (sched : List Rid), r < w.n → (w.prog r).length ≤ sched.count r →
+        Model.ReqLimit.response (Model.ReqLimit.run w (Model.ReqLimit.init w) sched) r = Model.ReqLimit.soloResponse w r) := by
+  intro h
+  have := h (limitWorld .shared) 1 [0, 0, 0, 1, 1, 1, 1, 1, 0, 0, 0] (by decide) (by decide)
+  revert this
+  decide
+
+/-- **Obligation + instance for the analysed tree**: every place that enters a process-wide counter
+of the VM (regenerated every run from all non-test Go files) refuses only under a count of the
+calling goroutine's own frames — frames that are counted in the process-wide number, against a
+limit not below the process-wide one —, leaves the counter on every path, and the VM has no
+other numeric field; hence under every schedule every request is served or refused as the
+specification's function of its own program says. -/
+theorem C11_depth_guards_generated :
+    Generated.C11Superglobals.facts.guardViolations = [] ∧
+    ∀ (n : Nat) (prog : Rid → List Model.ReqLimit.Step) (r : Rid) (sched : List Rid), r < n →
+      (prog r).length ≤ sched.count r →
+      let w : Model.ReqLimit.World := { n := n, guards := guardsOf Generated.C11Superglobals.facts, prog := prog }
+      Model.ReqLimit.response (Model.ReqLimit.run w (Model.ReqLimit.init w) sched) r
+        = Spec.ReqLimit.respond (guardsOf Generated.C11Superglobals.facts) (prog r) := by
+  have hv : Generated.C11Superglobals.facts.guardViolations = [] := by decide
+  have hi : Generated.C11Superglobals.facts.guardsIsolated = true := by decide
+  refine ⟨hv, ?_⟩
+  intro n prog r sched hr hdone w
+  have h := C11_depth_noninterference w (goodGuards_of_facts _ hi) r hr sched hdone
+  rw [h.1, h.2]
+
+end Limit
+
 /-! ## Non-vacuity -/
 
 /-- a world with per-request storage, three requests, each reading `$_GET`, `$_REQUEST`, writing `$_SESSION` -/
@@ -373,3 +481,20 @@ example : Generated.C11Superglobals.facts.nodeWrites.any (fun w => w.parserBuilt
     Generated.C11Superglobals.facts.nodeWrites.any (fun w => !w.parserBuilt && w.typ == "FuncYieldStackState") = true := by decide
 
 end C11
+
+/-- `GoodGuards` is satisfiable by a table that really guards, the witness world's requests exist
+and finish under the schedule, and the analysed tree has a guard that decides on own frames -/
+example : Proofs.ReqLimit.GoodGuards (C11.limitWorld .own).guards ∧
+    (1 < (C11.limitWorld .own).n ∧ ((C11.limitWorld .own).prog 1).length ≤ [0, 0, 0, 1, 1, 1, 1, 1, 0, 0, 0].count 1) ∧
+    Model.ReqLimit.total (C11.limitWorld .own).guards
+      (Model.ReqLimit.run (C11.limitWorld .own) (Model.ReqLimit.init (C11.limitWorld .own)) [0, 0, 0, 1, 1]) 2 = 3 ∧
+    Spec.ReqLimit.respond (C11.limitWorld .own).guards [.enter "m", .enter "m", .enter "m", .write] = .refused 3 ∧
+    Generated.C11Superglobals.facts.depthGuards.any (fun d => d.decidesOn == "own" && decide (d.limit > 0)) = true := by
+  refine ⟨?_, by decide, by decide, by decide, by decide⟩
+  intro k gd hk
+  simp only [C11.limitWorld] at hk
+  split at hk
+  · simp only [Option.some.injEq] at hk
+    subst hk
+    simp [Proofs.ReqLimit.GuardOK, Model.ReqLimit.counted, C11.limitWorld]
+  · simp at hk
